@@ -216,6 +216,57 @@ def run_driver(run, tier, focus, drv, replay=None):
         shutil.rmtree(tmp, ignore_errors=True)
 
 
+def run_runtime(run, tier, focus):
+    """compio-runtime level: seeded task programs (submit futures plain / under timeout / under a cancel token /
+    in dropped tasks / runtime dropped with operations in flight), recorded and validated by Trace_OpAbs."""
+    tmp = vlib.scratch()
+    try:
+        vlib.cargo_build("hdrv", ["rt_record"])
+        tr = os.path.join(tmp, "rt.ndjson")
+        runs = 120 if tier == "quick" else 3000
+        rc, out, err = vlib.run_bin("rt_record", [runs, vlib.seed(), tr], timeout=3000)
+        lines = vlib.jsonl(out)
+        summ = [l for l in lines if l.get("type") == "summary"]
+        if not summ:
+            raise vlib.ToolError("rt_record produced no summary: %s" % err[-2000:])
+        summ = summ[0]
+        detail = {}
+        for l in lines:
+            if l.get("type") in ("hang", "contract", "panic"):
+                detail.setdefault((l["type"], json.dumps(l["sig"], sort_keys=True)), l)
+        for p in summ["problems"]:
+            d = detail.get((p["type"], json.dumps(p["sig"], sort_keys=True)), {})
+            cls = p["sig"].get("class")
+            route = p["sig"].get("route", "")
+            if p["type"] == "hang":
+                prop = "C05" if cls == "cancel" else ("C17" if route == "Blocking" else "C02")
+            elif p["type"] == "contract":
+                prop = "C05" if route in ("Token", "Timeout") else "C02"
+            else:
+                prop = focus
+            if prop == focus:
+                run.report(p["sig"], d.get("desc", ""), d.get("case"))
+            else:
+                vlib.log("NOTE: %s finding at runtime level (reported by ./check %s): %s" % (prop, prop, d.get("desc", "")[:200]))
+        viol, r = validate(tr)
+        run.add_model("Trace_OpAbs/runtime", r)
+        tl = [json.loads(l) for l in open(tr)]
+        for (line, kind, op) in viol:
+            prop = KIND2PROP.get(kind, "C01")
+            case, evs = case_of_line(tl, line)
+            desc = "runtime level: contract monitor: %s for %s at trace line %d; last events: %s" % (
+                kind, op, line, [(e["ev"], e["op"], e["a"]) for e in evs[-8:]])
+            if prop == focus:
+                run.report({"site": "runtime", "monitor": kind}, desc, {"run": case, "seed": vlib.seed(), "events": evs[-40:]})
+            else:
+                vlib.log("NOTE: %s finding (reported by ./check %s): %s" % (prop, prop, desc[:300]))
+        run.add_traces(summ["cases"])
+        run.note("runtime_level_runs", summ["cases"])
+        run.note("runtime_level_events_validated", summ["trace_events"])
+    finally:
+        shutil.rmtree(tmp, ignore_errors=True)
+
+
 def run_all(run, tier, focus, replay=None):
     if replay:
         obj = json.load(open(replay))
@@ -225,3 +276,4 @@ def run_all(run, tier, focus, replay=None):
         return
     for drv in ("iour", "poll"):
         run_driver(run, tier, focus, drv)
+    run_runtime(run, tier, focus)
